@@ -964,7 +964,42 @@ def _run_main(res, ctx):
     res.extra["modelled_ids"] = TARGETS
 
 
+def b101_relative_scan(res):
+    """B101 honours `skips` globs against the file name AS DISCOVERED: a recursive scan of `.` names its files `./x.py`, and globs anchored with `*/` or `./`
+    match those spellings (seeded change C17-m11 normalised the name first: `./test_top.py` became `test_top.py` and `*/test_*.py` stopped matching at the top)."""
+    import fnmatch, tempfile, shutil, yaml
+    from bandit.core import config as b_config, manager as b_manager
+    d = tempfile.mkdtemp(prefix="bverif_c17rel_")
+    old = os.getcwd()
+    try:
+        files = ["main.py", "test_top.py", "tests/helpers.py", "pkg/module.py", "pkg/test_x.py", "pkg/tests/deep.py", "conftest.py"]
+        for f in files:
+            os.makedirs(os.path.dirname(os.path.join(d, f)) or d, exist_ok=True)
+            with open(os.path.join(d, f), "w") as fh:
+                fh.write("import os\nassert os.name\n")
+        os.chdir(d)
+        for gs in (["*/test_*.py", "*/tests/*"], ["./test_*.py"], ["test_*.py"], ["./tests/*"], ["*/pkg/*"], ["./*.py"], ["./pkg/tests/*", "*conftest.py"]):
+            for targets, rec in ((["."], True), (["./"], True), (["pkg", "main.py", "test_top.py"], True), (["./pkg/../pkg"], True)):
+                cfgp = os.path.join(d, "bandit.yaml")
+                with open(cfgp, "w") as fh:
+                    yaml.safe_dump({"assert_used": {"skips": gs}}, fh)
+                mgr = b_manager.BanditManager(b_config.BanditConfig(cfgp), "file")
+                mgr.discover_files(list(targets), rec); mgr.run_tests(); C.take_log()
+                hit = sorted({r.fname for r in mgr.results if r.test_id == "B101"})
+                want = sorted(f for f in mgr.files_list if not any(fnmatch.fnmatch(f, g) for g in gs))
+                res.case(("b101-relative", tuple(gs), tuple(targets)), True)
+                res.count("b101:relative-scan")
+                if hit != want:
+                    res.violation("B101 does not follow the configured skips globs for the file names a relative scan discovers",
+                                  {"check": "B101", "skips": gs, "targets": targets, "cwd_files": files, "discovered": sorted(mgr.files_list), "B101_reported_in": hit, "expected_in": want})
+    finally:
+        os.chdir(old)
+        shutil.rmtree(d, ignore_errors=True)
+
+
 def run(res, ctx):
     _run_main(res, ctx)
+    if not ctx.get("replay"):
+        b101_relative_scan(res)
     # the neighbourhood of every construct of bandit's example files (harness/metamorph.py): model vs implementation on this family's ids
-    metamorph.family(res, ctx, C, set(TARGETS), 900, 5000)
+    metamorph.family(res, ctx, C, set(TARGETS), 900, 5000, sections={"try_except_pass", "try_except_continue", "assert_used", "markupsafe_xss"}, cfg_want=lambda s: "except" in s or "assert" in s or "Markup" in s)
